@@ -25,6 +25,8 @@ import (
 	"context"
 	"database/sql/driver"
 	"errors"
+	"io"
+	"reflect"
 )
 
 func ctxDriverPrepare(ctx context.Context, ci driver.Conn, query string) (driver.Stmt, error) {
@@ -62,7 +64,15 @@ func ctxDriverExec(ctx context.Context, execerCtx driver.ExecerContext, execer d
 
 func CtxDriverQuery(ctx context.Context, queryerCtx driver.QueryerContext, queryer driver.Queryer, query string, nvdargs []driver.NamedValue) (driver.Rows, error) {
 	if queryerCtx != nil {
-		return queryerCtx.QueryContext(ctx, query, nvdargs)
+		rows, err := queryerCtx.QueryContext(ctx, query, nvdargs)
+		if err == driver.ErrSkip {
+			// the driver has no fast path for this query (go-sql-driver/mysql: bound arguments while
+			// interpolateParams is off): do what database/sql does, prepare it on the same connection
+			if preparer, ok := queryerCtx.(driver.ConnPrepareContext); ok {
+				return QueryViaPrepare(ctx, preparer, query, nvdargs)
+			}
+		}
+		return rows, err
 	}
 	dargs, err := namedValueToValue(nvdargs)
 	if err != nil {
@@ -120,4 +130,95 @@ func namedValueToValue(named []driver.NamedValue) ([]driver.Value, error) {
 		dargs[n] = param.Value
 	}
 	return dargs, nil
+}
+
+// rowsOfStmt closes the statement the rows come from together with the rows.
+type rowsOfStmt struct {
+	driver.Rows
+	stmt driver.Stmt
+}
+
+// the optional column-type and result-set methods of the underlying rows stay visible to database/sql
+// (a missing one answers what database/sql assumes for rows without it)
+
+func (r *rowsOfStmt) ColumnTypeScanType(index int) reflect.Type {
+	if v, ok := r.Rows.(driver.RowsColumnTypeScanType); ok {
+		return v.ColumnTypeScanType(index)
+	}
+	return reflect.TypeOf(new(interface{})).Elem()
+}
+
+func (r *rowsOfStmt) ColumnTypeDatabaseTypeName(index int) string {
+	if v, ok := r.Rows.(driver.RowsColumnTypeDatabaseTypeName); ok {
+		return v.ColumnTypeDatabaseTypeName(index)
+	}
+	return ""
+}
+
+func (r *rowsOfStmt) ColumnTypeNullable(index int) (nullable, ok bool) {
+	if v, is := r.Rows.(driver.RowsColumnTypeNullable); is {
+		return v.ColumnTypeNullable(index)
+	}
+	return false, false
+}
+
+func (r *rowsOfStmt) ColumnTypeLength(index int) (length int64, ok bool) {
+	if v, is := r.Rows.(driver.RowsColumnTypeLength); is {
+		return v.ColumnTypeLength(index)
+	}
+	return 0, false
+}
+
+func (r *rowsOfStmt) ColumnTypePrecisionScale(index int) (precision, scale int64, ok bool) {
+	if v, is := r.Rows.(driver.RowsColumnTypePrecisionScale); is {
+		return v.ColumnTypePrecisionScale(index)
+	}
+	return 0, 0, false
+}
+
+func (r *rowsOfStmt) HasNextResultSet() bool {
+	if v, ok := r.Rows.(driver.RowsNextResultSet); ok {
+		return v.HasNextResultSet()
+	}
+	return false
+}
+
+func (r *rowsOfStmt) NextResultSet() error {
+	if v, ok := r.Rows.(driver.RowsNextResultSet); ok {
+		return v.NextResultSet()
+	}
+	return io.EOF
+}
+
+func (r *rowsOfStmt) Close() error {
+	err := r.Rows.Close()
+	if cerr := r.stmt.Close(); err == nil {
+		err = cerr
+	}
+	return err
+}
+
+// QueryViaPrepare runs a query through a prepared statement of the connection, the fallback of
+// database/sql for a driver that answers driver.ErrSkip to the direct call.
+func QueryViaPrepare(ctx context.Context, conn driver.ConnPrepareContext, query string, nvdargs []driver.NamedValue) (driver.Rows, error) {
+	stmt, err := conn.PrepareContext(ctx, query)
+	if err != nil {
+		return nil, err
+	}
+	rows, err := ctxDriverStmtQuery(ctx, stmt, nvdargs)
+	if err != nil {
+		stmt.Close()
+		return nil, err
+	}
+	return &rowsOfStmt{Rows: rows, stmt: stmt}, nil
+}
+
+// ExecViaPrepare is QueryViaPrepare for statements without a result set.
+func ExecViaPrepare(ctx context.Context, conn driver.ConnPrepareContext, query string, nvdargs []driver.NamedValue) (driver.Result, error) {
+	stmt, err := conn.PrepareContext(ctx, query)
+	if err != nil {
+		return nil, err
+	}
+	defer stmt.Close()
+	return ctxDriverStmtExec(ctx, stmt, nvdargs)
 }
